@@ -7,6 +7,7 @@ ids="$@"; [ -z "$ids" ] && ids=$(ls /verif/seeded)
 mkdir -p /tmp/mut
 one() {
   id=$1; prop=${id:0:3}; wt=/tmp/mut/$id
+  if grep -q '"retired"' /verif/seeded/$id/meta.json 2>/dev/null; then echo "$id RETIRED"; return; fi
   rm -rf $wt $wt.build $wt.out
   git -C /repo worktree add --detach $wt HEAD >/dev/null 2>&1 || { echo "$id WORKTREE-FAIL"; return; }
   if ! git -C $wt apply /verif/seeded/$id/patch.diff 2>/dev/null && ! git -C $wt apply -3 /verif/seeded/$id/patch.diff >/dev/null 2>&1; then echo "$id PATCH-FAIL"; else
